@@ -200,7 +200,7 @@ class FlagHistory(Contract):
         else:
             x.resize(s, n, f)
         x.set_val(inp['v'][2])
-        return {'status': dict(x.status), 'val': x.val, 'log': list(cb.log)}
+        return {'status': dict(x.status), 'val': x.val, 'log': sorted(cb.log)}
 
     def post(self, cfg, inp, obs):
         if obs['exc']:
